@@ -223,6 +223,144 @@ theorem static_object_entry_without_annotation :
   ⟨.global "g_st" none false (some .Texture2D) .no false .static,
    some { set := 0, loc := .index 0, slotType := some .T }, 0, _, rfl, rfl, by decide⟩
 
+
+/-! ## the whole module: annotations and entries line up, and the printers cannot panic -/
+
+/-- The parameter sets `compile()` uses for the two HLSL flavours satisfy the side condition. -/
+theorem hlsl_params_of_targets (sba : Bool) :
+    HlslParams (paramsFor .HlslForDirectX sba) ∧ HlslParams (paramsFor .HlslForVulkan sba) := by
+  cases sba <;> simp [HlslParams, paramsFor, paramsDefault]
+
+/-- On the api slots the allocator produced, no `panic!` / `assert!` of `generate_register_annotation`,
+    `generate_vk_binding_annotation` can fire: every declaration's annotation is printed. -/
+theorem hlsl_annotations_total {p : Params} (hp : HlslParams p) {dflt : Nat} {ds : List MDecl} {res : Result}
+    (h : assign p dflt (ds.map MDecl.toSlot) = .ok res) :
+    ∃ r, annots (hlslAnnot p) ds res.bindings = .ok r :=
+  annots_total hp ds res.bindings (assign_good h)
+
+/-- a declaration is annotated iff it is registered, unless it is a non-extern global (see
+    `static_object_entry_without_annotation`) -/
+theorem annot_iff_entry {p : Params} {d : MDecl} {ob : Option Binding} {oa : Option Annot} {oe : Option (Nat × Entry)}
+    (hext : ∀ n s ss k arr bl st, d = .global n s ss k arr bl st → st = .extern)
+    (ha : hlslAnnot p d ob = .ok oa) (he : hlslEvent d ob = .ok oe) : oa.isSome = oe.isSome := by
+  have hreg : ∀ b o, regAnnot (some b) = .ok o → o.isSome = true := by
+    intro b o h
+    simp only [regAnnot] at h
+    split at h
+    · cases h
+    · split at h <;> cases h; rfl
+  have hvk : ∀ b o, vkAnnot (some b) = .ok o → o.isSome = true := by
+    intro b o h
+    simp only [vkAnnot] at h
+    split at h
+    · cases h
+    · split at h <;> cases h; rfl
+  cases d with
+  | other => simp [hlslAnnot] at ha; simp [hlslEvent] at he; subst ha; subst he; rfl
+  | cbuffer n s =>
+    cases ob with
+    | none =>
+      simp [hlslEvent] at he; subst he
+      simp only [hlslAnnot] at ha
+      split at ha <;> (simp [vkAnnot, regAnnot] at ha; subst ha; rfl)
+    | some b =>
+      simp [hlslEvent] at he; subst he
+      simp only [hlslAnnot] at ha
+      split at ha
+      · simp [hvk b oa ha]
+      · simp [hreg b oa ha]
+  | global n s ss k arr bl st =>
+    have hst := hext n s ss k arr bl st rfl
+    subst hst
+    have hee : (Storage.extern == Storage.extern) = true := by decide
+    simp only [hlslEvent] at he
+    split at he
+    · cases he
+    · cases ob with
+      | none =>
+        simp at he; subst he
+        simp only [hlslAnnot, storageAfter, hee, if_true] at ha
+        by_cases hv : requiresVk p = true <;> (simp [hv, vkAnnot, regAnnot] at ha; subst ha; rfl)
+      | some b =>
+        simp at he; subst he
+        obtain ⟨bs, bl', bt⟩ := b
+        cases bl' with
+        | inline o => simp [hlslAnnot] at ha; subst ha; rfl
+        | index i =>
+          simp only [hlslAnnot, storageAfter, hee, if_true] at ha
+          by_cases hv : requiresVk p = true
+          · simp only [hv, if_true] at ha; simp [hvk _ oa ha]
+          · simp only [hv] at ha; simp [hreg _ oa ha]
+
+/-- Module level `annot_matches_meta` + "exactly one": for a module without non-extern object globals,
+    the list of printed annotations and the list of registered entries have the same length and line up
+    one to one, in order, on (name, bind group, slot | inline offset); and every printed annotation reads
+    back as itself. -/
+theorem annotations_match_metadata_hlsl {p : Params} :
+    ∀ (ds : List MDecl) (bs : List (Option Binding)) (i : Nat) (as : List (String × Annot)) (evs : List (Nat × Entry)),
+      (∀ d ∈ ds, ∀ n s ss k arr bl st, d = .global n s ss k arr bl st → st = .extern) →
+      annots (hlslAnnot p) ds bs = .ok as → events (fun _ => hlslEvent) i ds bs = .ok evs →
+      as.map (fun x => (x.1, (Annot.read x.2).1, (Annot.read x.2).2.1)) = evs.map (fun x => (x.2.name, x.1, x.2.loc)) ∧
+      ∀ x ∈ as, readAnnot x.2.print = some x.2 := by
+  intro ds
+  induction ds with
+  | nil =>
+    intro bs i as evs _ ha he
+    cases bs <;> (simp [annots] at ha; simp [events] at he; subst ha; subst he; simp)
+  | cons d ds ih =>
+    intro bs i as evs hext ha he
+    cases bs with
+    | nil => simp [annots] at ha; simp [events] at he; subst ha; subst he; simp
+    | cons ob bs =>
+      unfold annots at ha
+      unfold events at he
+      split at ha
+      · cases ha
+      · rename_i oa hoa
+        split at ha
+        · cases ha
+        · rename_i ra hra
+          split at he
+          · cases he
+          · rename_i oe hoe
+            split at he
+            · cases he
+            · rename_i re hre
+              simp only [Except.ok.injEq] at ha he
+              have hrest := ih bs (i + 1) ra re (fun d' hd' => hext d' (by simp [hd'])) hra hre
+              have hiff := annot_iff_entry (hext d (by simp)) hoa hoe
+              cases oa with
+              | none =>
+                cases oe with
+                | some x => simp at hiff
+                | none => simp only at ha he; subst ha; subst he; exact hrest
+              | some a =>
+                cases oe with
+                | none => simp at hiff
+                | some x =>
+                  obtain ⟨g, e⟩ := x
+                  simp only at ha he
+                  subst ha; subst he
+                  obtain ⟨hprint, hg, hloc, _⟩ := annot_matches_meta_hlsl hoa hoe
+                  have hname : e.name = d.name := by
+                    obtain ⟨_, hsome⟩ := hlslEvent_ok d ob _ hoe
+                    cases ob with
+                    | none =>
+                      cases d <;> simp [hlslEvent] at hoe
+                      split at hoe <;> simp at hoe
+                    | some b =>
+                      have hne : d ≠ .other := by
+                        intro hd; subst hd; simp [hlslEvent] at hoe
+                      obtain ⟨e', he', hn, _⟩ := hsome b rfl hne
+                      simp only [Option.some.injEq, Prod.mk.injEq] at he'
+                      rw [he'.2]; exact hn
+                  refine ⟨?_, ?_⟩
+                  · simp only [List.map_cons, hrest.1, hg, hloc, hname]
+                  · intro x hx
+                    rcases List.mem_cons.1 hx with rfl | hx
+                    · exact hprint
+                    · exact hrest.2 x hx
+
 /-! ## descriptor_kind_count -/
 
 /-- Descriptor type and count of an entry depend only on the declared (peeled) kind and the array layer:
@@ -411,5 +549,29 @@ example : hlslAnnot (paramsFor .HlslForVulkan true) (.global "g" (some 1) false 
 example : String.ofList (Annot.print (.reg .T 3 1)).2 = " : register(t3, space1)" ∧
     String.ofList (Annot.print (.vk 3 0)).2 = "[[vk::binding(3)]]" ∧
     (Annot.print (.offset 8 2)).1 = "InlineDescriptor2".toList := by decide
+
+/-! Non-vacuity: a mixed module goes through both exporters' metadata builders, and the usage loop
+    terminates on a small call graph. -/
+def exampleDecls : List MDecl :=
+  [ .other, .cbuffer "g_cb" none, .global "g_t" (some 1) false (some .Texture2D) (.sized 3) false .extern,
+    .global "s_value" none false none .no false .static,
+    .global "g_ss" none true (some .SamplerState) .no false .extern,
+    .global "g_ba" none false (some .BufferAddress) .no false .extern,
+    .global "g_bab" none false (some .ByteAddressBuffer) (.sized 2) true .extern ]
+
+example : ((hlslMeta (paramsFor .HlslForVulkan true) 0 exampleDecls).toOption.map
+      (·.map fun g => (g.bindings.map (·.name), g.inlineConstants))) =
+    some [(["g_cb", "g_ss", "g_ba", "g_bab"], some (4, 8)), (["g_t"], none)] := by decide
+
+example : ((mslMeta (paramsFor .Msl false) 0 (fun i => i == 2) exampleDecls).toOption.map
+      (·.map fun g => g.bindings.map fun e => (e.name, e.loc, e.used))) =
+    some [[("g_cb", .index 0, false), ("g_ba", .index 1, false), ("g_bab", .index 3, false)],
+          [("g_t", .index 0, true)]] := by decide
+
+example : boundNames (paramsFor .Msl false) 0 0 exampleDecls = ["g_cb", "g_ba", "g_bab"] := by decide
+
+open RsslVerif.Model.MetaReach in
+example : ((recurse 5 [0, 1, 2] (fun f => if f = 0 then [.fn 1] else if f = 1 then [.glob 7, .fn 2] else if f = 2 then [.glob 9] else [])).map
+      fun req => (usedBy req [0] 9, usedBy req [2] 7)) = some (true, false) := by decide
 
 end RsslVerif.Thm.C05
